@@ -1,16 +1,16 @@
 import RsModel.Lemmas.DeclReplace
 import RsModel.Lemmas.PosTree
+import RsModel.Lemmas.CombTables
 /-! # C11 stream clause for whole trees, all four modes -/
 namespace Rs
 
 mutual
-/-- what the property's quantifier provides: attached maps reference existing sources / names.  A SourceMapSource with an
-inner map (the combinator of C09) is not covered by the lemmas: its clause is a closed hypothesis about its own stream. -/
+/-- what the property's quantifier provides: attached maps (outer and inner) reference existing sources / names of their own tables -/
 def Src.IdxHyp : Src → Prop
   | .sms t name map origSrc inner remove =>
     match inner with
     | none => MapIdxOK map
-    | some im => ∀ o, DeclOK 0 0 (streamCombined t map name origSrc im remove o).evs
+    | some im => MapIdxOK map ∧ MapIdxOK im
   | .concat cs => cs.IdxHyps
   | .replace inner _ => inner.IdxHyp
   | .cached _ inner => inner.IdxHyp
@@ -44,7 +44,7 @@ theorem Src.stream_declOK : ∀ (s : Src) (o : Opts) (σ : Store), s.IdxHyp → 
     simp only [Src.stream]
     cases inner with
     | none => exact streamSM_declOK t map o hp
-    | some im => exact hp o
+    | some im => exact streamCombined_declOK t map name origSrc im remove o hp.1 hp.2
   | .concat .nil, o, σ, _, _, _ => by simp only [Src.stream]; exact concatStream_declOK _ _
   | .concat (.cons s rest), o, σ, hp, hn, hs => by
     simp only [Src.IdxHyp, SrcList.IdxHyps] at hp
